@@ -116,7 +116,9 @@ def run_history(env, kind, events, scratch, viol, stats, rnd):
             stats["nontrivial"].add(stats["hist_id"])
         if any(x in q for x in ("push", "setkey", "dfcol", "mutvar", "let-", "flag-")):
             stats["_mut_seen"] = True
-        for field, detail in E.compare_outcomes(ref, got):
+        for field, detail in E.compare_outcomes(ref, got, env, q):
+            if field in E.JSON_IMAGE_FIELDS:
+                continue    # not a leak: the JSON image of a tuple-valued variable (C04's listed finding)
             viol("evaluation_differs_from_isolated_reference." + field,
                  "%s: step %d evaluate(%r)%s: %s" % (kind, step, q, " [cache hit]" if hit else "", detail), step)
         # (a) configured defaults
